@@ -799,6 +799,7 @@ def run(chk, replay=None):
     t0 = time.time()
     chk.proof_leg(MODEL_TARGETS, "Properties/C06.v", PROOF_FILES + ["Raw/RawFlatten_proofs.v"], "Properties.C06")
     kernel_tie_leg(chk, "transform")
+    kernel_tie_leg(chk, "raw_gds")       # GdsImporter::import_boundary generated from the source = the model (Properties/KernelsRaw2.v)
     chk.cov.setdefault("timing_s", {})["proof_leg"] = round(time.time() - t0, 1)
     chk.assumptions += [
         "isize/usize are 64 bit; the harness is built with overflow checks (an integer overflow is a panic)",
